@@ -644,8 +644,9 @@ def jobs(tier):
         js.append((h_bytemasked_nextcarry, (True, n + 1), 600))
     for m in range(M + 2):
         js.append((h_regularize_arrayslice, (m,), 600))
-    from . import extra01
+    from . import extra01, cpp01
     js += extra01.jobs(tier)
+    js += cpp01.jobs(tier)          # C++ method level: getitem_at / getitem_range / getitem_at_nowrap of the list nodes
     return js
 
 
